@@ -65,6 +65,7 @@ func writeEvidence(path, prop, tier string, seed uint64, t *summary, distinct, i
 		"probes":                      t.Probes,
 		"probes_stuck_at_zero":        probesZero,
 		"workload_mix":                t.Workloads,
+		"search_strategies":           t.Strategies,
 		"determinism_reruns_in_batch": t.DetChecked,
 		"known_findings_seen":         known,
 		"new_violations":              newViol,
